@@ -5,9 +5,9 @@ Run only when the reference tree is re-confirmed by hand: the table says which c
 import json, os, sys
 VERIF = os.path.dirname(os.path.dirname(os.path.abspath(__file__)))
 sys.path.insert(0, VERIF)
-from rules import facts as F, expand, pipeline  # noqa
+from rules import facts as F, expand, pipeline, unroll  # noqa
 
-out = {"closures": {}, "plain": {}, "pipelines": {}}
+out = {"closures": {}, "plain": {}, "pipelines": {}, "array_loops": {}}
 for release in (False, True):
     F.ensure_driver()
     import tempfile, shutil
@@ -17,6 +17,12 @@ for release in (False, True):
         F.run_driver(F.REPO, p, release=release)
         raw = json.load(open(p))
         t = expand.reference_tables(raw)
+        rb = {j["key"]: j for j in raw["bodies"]}
+        for j in raw["bodies"]:
+            if j["kind"] in ("fn", "closure"):
+                n = unroll.count_loops(j, rb)
+                if n:
+                    out["array_loops"][j["key"]] = max(n, out["array_loops"].get(j["key"], 0))
         for k, v in pipeline.reference_pipelines(raw).items():
             for c, n in v.items():
                 out["pipelines"].setdefault(k, {})[c] = max(n, out["pipelines"].get(k, {}).get(c, 0))
